@@ -4,6 +4,8 @@
 def patch_dict(obj: "map", diff: "Seq[ME]") -> "map":
     # wf_map: keys pairwise distinct; add names an absent key, remove/replace/patch a present one; patch diffs non-empty
     requires(wf_map(diff, obj))
+    # nested diffs are well formed for the values they patch
+    requires(all(implies(diff[q].op == "patch", wf_v(obj[diff[q].key], diff[q].diff)) for q in range(len(diff))))
     ensures(result == apply_map(obj, diff))
     with loop(1, index="k"):
         invariant(all(implies(diff[q].op != "remove", diff[q].key in newobj) and implies(diff[q].op == "remove", diff[q].key in deleted_keys)
